@@ -11,4 +11,4 @@ CONSTANTS
 CONSTRAINT SizeBound
 VIEW absvars
 INVARIANTS TypeOK ArraySizeFixed Lockstep
-PROPERTIES ObserversPure FailedChangesNothing ResizeLaw WriteLaw DefaultLaw MoveLaw SwapLaw AlgoLaw
+PROPERTIES ObserversPure FailedChangesNothing ResizeLaw WriteLaw DefaultLaw MoveLaw SwapLaw AlgoLaw XAssignLaw XCopyLaw CtorFromLaw
